@@ -62,6 +62,7 @@ pub fn dump_network(nw: &Network, out: &mut String) {
     }
     let v: Vec<NodeIdx> = nw.maintenance_nodes().collect();
     writeln!(out, "maint : {}", ids(&v)).unwrap();
+    writeln!(out, "considered {}", nw.maintenance_considered()).unwrap();
     let v: Vec<NodeIdx> = nw.start_depot_nodes().collect();
     writeln!(out, "sdepots : {}", ids(&v)).unwrap();
     let v: Vec<NodeIdx> = nw.end_depot_nodes().collect();
